@@ -4,6 +4,8 @@ import FastorModel.Generated.Simd_avx2
 import FastorModel.Generated.Simd_avx512
 import FastorModel.Generated.C16Spec_avx2
 import FastorModel.Generated.C16Spec_avx512
+import FastorModel.Generated.C16Hadd_avx2
+import FastorModel.Generated.C16Hadd_avx512
 /- `hstep` command of the driver (C16): the horizontal helpers of extintrin.h, EXECUTED from the definitions that
    vlib/xlate_simd.py generates from the current source for the build configuration of the case.  The uninterpreted
    floating-point operations are instantiated by integer arithmetic on the lane bit patterns (the harness uses
@@ -73,12 +75,32 @@ private def evalHelper (cfg fn : String) (xs : Array Int) : Option Int :=
     | "sum256_pd" => i64 (Gen.avx2.mm256_sum_pd intFO a64) | "prod256_pd" => i64 (Gen.avx2.mm256_prod_pd intFO a64)
     | _ => none
 
+/-- `cfg=<isa>-hadd` (the harness was compiled with -DFASTOR_USE_HADD): the four sums have a second body, generated into
+    Generated/C16Hadd_<isa>.lean; every other helper is the one of the plain configuration -/
+private def evalHelperCfg (cfg fn : String) (xs : Array Int) : Option Int :=
+  if cfg.endsWith "-hadd" then
+    let isa := (cfg.dropRight 5)
+    let a32 := reg32 xs
+    let a64 := reg64 xs
+    let sse3 := isa != "sse2" && isa != "scalar"
+    match isa == "avx512", fn with
+    | true, "sum_ps" => some (Gen.avx512.hadd.mm_sum_ps intFO a32).toInt
+    | true, "sum_pd" => some (Gen.avx512.hadd.mm_sum_pd intFO a64).toInt
+    | true, "sum256_ps" => some (Gen.avx512.hadd.mm256_sum_ps intFO a32).toInt
+    | true, "sum256_pd" => some (Gen.avx512.hadd.mm256_sum_pd intFO a64).toInt
+    | false, "sum_ps" => if sse3 then some (Gen.avx2.hadd.mm_sum_ps intFO a32).toInt else evalHelper isa fn xs
+    | false, "sum_pd" => if sse3 then some (Gen.avx2.hadd.mm_sum_pd intFO a64).toInt else evalHelper isa fn xs
+    | false, "sum256_ps" => some (Gen.avx2.hadd.mm256_sum_ps intFO a32).toInt
+    | false, "sum256_pd" => some (Gen.avx2.hadd.mm256_sum_pd intFO a64).toInt
+    | _, _ => evalHelper isa fn xs
+  else evalHelper cfg fn xs
+
 def runHstep (kv : List (String × String)) : String := Id.run do
   let some cfg := getS kv "cfg" | return "bad-op"
   let some fn := getS kv "fn" | return "bad-op"
   let some xs := getS kv "x" | return "bad-op"
   let data := ((xs.splitOn ",").filterMap String.toInt?).toArray
-  match evalHelper cfg fn data with
+  match evalHelperCfg cfg fn data with
   | some r => return s!"route=hstep R={r}"
   | none => return "bad-op"
 
@@ -92,6 +114,25 @@ private def evalSpec (cfg fn : String) (xs ys : Array Int) : Option Int :=
   let n32 : Reg := reg32 ys
   let n64 : Reg := reg64 ys
   match cfg with
+  | "avx512-hadd" =>
+    match fn with
+    | "norm_float_4" => some (Gen.avx512.hadd.norm_float_4 fo m32).toInt
+    | "norm_float_9" => some (Gen.avx512.hadd.norm_float_9 fo m32).toInt
+    | "trace_float_2x2" => some (Gen.avx512.hadd.trace_float_2x2 fo m32).toInt
+    | "trace_float_3x3" => some (Gen.avx512.hadd.trace_float_3x3 fo m32).toInt
+    | "det_float_2" => some (Gen.avx512.hadd.det_float_2 fo m32).toInt
+    | "det_float_3" => some (Gen.avx512.hadd.det_float_3 fo m32).toInt
+    | "norm_double_4" => some (Gen.avx512.hadd.norm_double_4 fo m64).toInt
+    | "norm_double_9" => some (Gen.avx512.hadd.norm_double_9 fo m64).toInt
+    | "trace_double_2x2" => some (Gen.avx512.hadd.trace_double_2x2 fo m64).toInt
+    | "trace_double_3x3" => some (Gen.avx512.hadd.trace_double_3x3 fo m64).toInt
+    | "det_double_2" => some (Gen.avx512.hadd.det_double_2 fo m64).toInt
+    | "det_double_3" => some (Gen.avx512.hadd.det_double_3 fo m64).toInt
+    | "doublecontract_float_2x2" => some (Gen.avx512.hadd.doublecontract_float_2x2 fo m32 n32).toInt
+    | "doublecontract_float_3x3" => some (Gen.avx512.hadd.doublecontract_float_3x3 fo m32 n32).toInt
+    | "doublecontract_double_2x2" => some (Gen.avx512.hadd.doublecontract_double_2x2 fo m64 n64).toInt
+    | "doublecontract_double_3x3" => some (Gen.avx512.hadd.doublecontract_double_3x3 fo m64 n64).toInt
+    | _ => none
   | "avx512" =>
     match fn with
     | "norm_float_4" => some (Gen.avx512.spec.norm_float_4 fo m32).toInt
@@ -112,6 +153,26 @@ private def evalSpec (cfg fn : String) (xs ys : Array Int) : Option Int :=
     | "doublecontract_double_3x3" => some (Gen.avx512.spec.doublecontract_double_3x3 fo m64 n64).toInt
     | _ => none
   | _ =>
+    if cfg.endsWith "-hadd" then
+      match fn with
+      | "norm_float_4" => some (Gen.avx2.hadd.norm_float_4 fo m32).toInt
+      | "norm_float_9" => some (Gen.avx2.hadd.norm_float_9 fo m32).toInt
+      | "trace_float_2x2" => some (Gen.avx2.hadd.trace_float_2x2 fo m32).toInt
+      | "trace_float_3x3" => some (Gen.avx2.hadd.trace_float_3x3 fo m32).toInt
+      | "det_float_2" => some (Gen.avx2.hadd.det_float_2 fo m32).toInt
+      | "det_float_3" => some (Gen.avx2.hadd.det_float_3 fo m32).toInt
+      | "norm_double_4" => some (Gen.avx2.hadd.norm_double_4 fo m64).toInt
+      | "norm_double_9" => some (Gen.avx2.hadd.norm_double_9 fo m64).toInt
+      | "trace_double_2x2" => some (Gen.avx2.hadd.trace_double_2x2 fo m64).toInt
+      | "trace_double_3x3" => some (Gen.avx2.hadd.trace_double_3x3 fo m64).toInt
+      | "det_double_2" => some (Gen.avx2.hadd.det_double_2 fo m64).toInt
+      | "det_double_3" => some (Gen.avx2.hadd.det_double_3 fo m64).toInt
+      | "doublecontract_float_2x2" => some (Gen.avx2.hadd.doublecontract_float_2x2 fo m32 n32).toInt
+      | "doublecontract_float_3x3" => some (Gen.avx2.hadd.doublecontract_float_3x3 fo m32 n32).toInt
+      | "doublecontract_double_2x2" => some (Gen.avx2.hadd.doublecontract_double_2x2 fo m64 n64).toInt
+      | "doublecontract_double_3x3" => some (Gen.avx2.hadd.doublecontract_double_3x3 fo m64 n64).toInt
+      | _ => none
+    else
     match fn with
     | "norm_float_4" => some (Gen.avx2.spec.norm_float_4 fo m32).toInt
     | "norm_float_9" => some (Gen.avx2.spec.norm_float_9 fo m32).toInt
